@@ -15,6 +15,7 @@ MC_CoeffChoices == {0,5}
 MC_RandChoices == {1}
 MC_Msgs == {<<104,105>>}
 MC_ListOrders == {"asc","rot"}
+MC_CoordPkps == {"current","legacy"}
 MC_MaxExtra == 1
 MC_EMIT == TRUE
 MC_BatchAtEnd == FALSE
